@@ -3,6 +3,8 @@
 set -e
 cd "$(dirname "$0")"
 export CARGO_NET_OFFLINE=true
-(cd lean && lake build Modbus driver)
+python3 tools/cfg_translate.py /repo > /dev/null
+PROPS=$(ls lean/Modbus/Props/*.lean | sed 's#lean/##; s#/#.#g; s#\.lean$##')
+(cd lean && lake build Modbus driver $PROPS)
 (cd harness && cargo build --release --offline --quiet)
 echo "setup ok"
